@@ -72,6 +72,8 @@ class QGen:
         self.nvar = 0
         self.shape = []
         self.uncond = True  # are we at a place that is evaluated on every event?
+        self.last = None
+        self.self_join = None
 
     # ---- helpers
     def var(self, p):
@@ -96,13 +98,27 @@ class QGen:
         name = only or self.r.choice(names)
         c = COLLECTIONS[self.b][name]
         bank = self.r.choice(c["banks"])
+        if self.self_join is not None and only is None:
+            # a self-join: the very same collection and bank again, inside the loop over itself (object pairs)
+            name, bank = self.self_join
+            c = COLLECTIONS[self.b][name]
+            self.self_join = None
+            self.shape.append("self_join")
+            self.occ.append({"coll": name, "bank": bank, "type": c["ctype"], "uncond": self.uncond})
+            return f'{evar}.{name}("{bank}")', c["etype"]
         if self.r.random() < 0.10:
             bank = "prod"  # the same bank name asked for as different collection types (the store is keyed by type AND bank)
         prev = [o["bank"] for o in self.occ if o["coll"] != name]
         if prev and self.r.random() < 0.15:
             bank = self.r.choice(prev)  # deliberately the bank name another collection of this query already uses
         self.occ.append({"coll": name, "bank": bank, "type": c["ctype"], "uncond": self.uncond})
+        self.last = (name, bank)
         return f'{evar}.{name}("{bank}")', c["etype"]
+
+    def maybe_self_join(self, p=0.4):
+        "the next collection asked for is, with probability p, the one asked for last (same bank)"
+        if self.last is not None and self.r.random() < p:
+            self.self_join = self.last
 
     # ---- scalars of an object
     def obj_num(self, o, etype, depth, want=None):
@@ -214,12 +230,16 @@ class QGen:
     def seq_of_obj(self, evar, depth, allow_where=True):
         """(text of a sequence of objects hanging off the event, etype)"""
         src, etype = self.coll(evar)
-        if allow_where and depth > 0 and self.r.random() < 0.08:
+        if allow_where and depth > 0 and self.r.random() < 0.12:
             # matching: keep the objects for which some object of another collection is close
             v, t = self.var("w"), self.var("t")
             was = self.uncond
             self.uncond = False
+            self.maybe_self_join()
+            outer = self.occ[-1]
             src2, et2 = self.coll(evar)
+            # the inner collection is asked for once per element of the outer one (the predicate runs for every element)
+            self.occ[-1]["per_element_of"] = [outer["type"], outer["bank"]] if outer["uncond"] else None
             self.uncond = was
             self.shape.append("where_match")
             cut = self.r.choice(["0.4", "1.0", "3.0"])
@@ -386,7 +406,9 @@ class QGen:
             v = self.var("u")
             return f"{fs}.Select(lambda {v}: {v}.{r.choice(DOUBLE_METHODS)}())"
         if k < 0.75:
+            n_occ = len(self.occ)
             s, et = self.seq_of_obj(evar, depth)
+            outer_occ = dict(self.occ[n_occ], was_uncond=self.occ[n_occ]["uncond"]) if len(self.occ) > n_occ else None
             v = self.var("j")
             was = self.uncond
             self.uncond = False
@@ -420,7 +442,12 @@ class QGen:
                 txt = f"{s}.Select(lambda {v}: {x}).Select(lambda {w}: {y})"
             elif r.random() < 0.25 and depth > 0:
                 # per-object value that needs the event again (inner loop over another collection)
+                self.maybe_self_join()
+                outer = outer_occ if (".Where(" not in s and ".SelectMany(" not in s) else None
+                n_before = len(self.occ)
                 s2, et2 = self.seq_of_obj(evar, depth - 1)
+                if outer is not None and outer.get("was_uncond") and len(self.occ) > n_before:
+                    self.occ[n_before]["per_element_of"] = [outer["type"], outer["bank"]]
                 v2 = self.var("t")
                 x, _ = self.obj_num(v2, et2, 0)
                 self.shape.append("col1d_inner_agg")
@@ -456,6 +483,7 @@ class QGen:
             self.shape.append("col2d_member_select")
             txt = f"{s}.Select(lambda {v}: {v}.{m}().Select(lambda {c}: {c} + {v}.pt()))"
         else:
+            self.maybe_self_join()
             s2, et2 = self.seq_of_obj(evar, depth - 1, allow_where=r.random() < 0.5)
             v2 = self.var("t")
             x, _ = self.obj_num(v2, et2, 0)
@@ -564,6 +592,7 @@ class QGen:
                 # evaluation is lazy: what is only used behind the filter is fetched only for events that pass it
                 for o in self.occ:
                     o["uncond"] = False
+                    o.pop("per_element_of", None)
             steps.append(["Select", f"lambda {d}: " + "{" + ", ".join(cols) + "}"])
         elif form == "two_step_filtered":
             s_, et = self.seq_of_obj("e", depth)
@@ -572,6 +601,8 @@ class QGen:
             steps.append(["Where", f"lambda {v}: {v}.Count() {r.choice(['> 0', '> 1', '== 2'])}"])
             for o in self.occ[1:]:
                 o["uncond"] = False  # anything but the filtered sequence itself sits behind the filter
+            for o in self.occ:
+                o.pop("per_element_of", None)
             v2 = self.var("q")
             was = self.uncond
             self.uncond = False
